@@ -408,3 +408,18 @@ example : errOf (fromRange { grantReq with xenFlags := 0x6 } 4096 {} []).1 = som
 
 end C15x
 end VmMem
+
+#print axioms VmMem.C15x.mmapRange_none
+#print axioms VmMem.C15x.mmapRange_some
+#print axioms VmMem.C15x.mmapRangeBeforeFix_leaks
+#print axioms VmMem.C15x.newMap_error_same
+#print axioms VmMem.C15x.fromRange_error_leaves_nothing
+#print axioms VmMem.C15x.fromRangeBeforeFix_leaks
+#print axioms VmMem.C15x.core_validate_error
+#print axioms VmMem.C15x.fromRange_validate_error
+#print axioms VmMem.C15x.newMap_ok_drop
+#print axioms VmMem.C15x.fromRange_ok_inv
+#print axioms VmMem.C15x.fromRange_ok_reports
+#print axioms VmMem.C15x.fromRange_then_drop_restores
+#print axioms VmMem.C15x.fromRange_ondemand_no_calls
+#print axioms VmMem.C15x.fromRange_all_succeed_ok
